@@ -19,7 +19,7 @@ pub fn alphabet_v() -> Vec<(String, Value)> {
     for i in [0i64, 1, -1, 2, P53, P53 + 1, P53 + 2, i64::MIN, i64::MAX] {
         v.push((format!("int:{i}"), vint(i)));
     }
-    for (n, f) in [("0.0", 0.0f64), ("-0.0", -0.0), ("0.5", 0.5), ("2^53", P53 as f64), ("1.0", 1.0), ("inf", f64::INFINITY), ("-inf", f64::NEG_INFINITY), ("NaN", f64::NAN)] {
+    for (n, f) in [("0.0", 0.0f64), ("-0.0", -0.0), ("0.5", 0.5), ("2^53", P53 as f64), ("1.0", 1.0), ("-0.5", -0.5), ("-1.5", -1.5), ("2^63", 9223372036854775808.0), ("-2^63", -9223372036854775808.0), ("inf", f64::INFINITY), ("-inf", f64::NEG_INFINITY), ("NaN", f64::NAN)] {
         v.push((format!("float:{n}"), Value::Float(f)));
     }
     v.push(("null".into(), Value::Null));
@@ -332,7 +332,7 @@ fn check_overflow(rep: &Report, ev: &Evaluator, expr: &str, params: &[(&str, i64
 
 pub fn c22(tier: Tier) -> i32 {
     let rep = Report::new("C22", tier);
-    rep.rule("failing expressions E (invalid toBoolean / toInteger / toFloat / toString arguments, labels() / type() on scalars, list index of the wrong type, range() above the collection limit) x row lists of length 3 with the failing row first / middle / last x result operators W (RETURN, RETURN DISTINCT, UNION, UNION ALL (either arm), ORDER BY, WITH..WHERE, WITH DISTINCT, count / collect, CALL {}, SKIP 0, LIMIT 3, list comprehension, CASE) and, thorough, all nestings of two operators; a control run with only good rows must succeed; oracle: collecting the result yields an error; non-trivial = (E, position, W) instances whose control run succeeded");
+    rep.rule("failing expressions E (invalid toBoolean / toInteger / toFloat / toString arguments, labels() / type() on scalars, list index of the wrong type, range() above the collection limit) x row lists of length 3 with the failing row first / middle / last x result operators W (RETURN, RETURN DISTINCT, UNION, UNION ALL (either arm), ORDER BY, WITH..WHERE, WITH DISTINCT, count / collect, CALL {}, SKIP 0, LIMIT 3, list comprehension, CASE, sort keys that hide the call in CASE / a comprehension / a list, ORDER BY followed by a LIMIT that keeps fewer rows, several aggregates in one projection with count(*) first) and, thorough, all nestings of two operators; a control run with only good rows must succeed; oracle: collecting the result yields an error; non-trivial = (E, position, W) instances whose control run succeeded");
     let ev = Evaluator::new();
     // (name, expression over x, good values, bad value)
     let exprs: Vec<(&str, &str, Vec<Value>, Value)> = vec![
@@ -368,6 +368,20 @@ pub fn c22(tier: Tier) -> i32 {
         ("count_DISTINCT", Box::new(|e| format!("UNWIND $l AS x RETURN count(DISTINCT {e}) AS r"))),
         ("WITH_DISTINCT_then_UNION", Box::new(|e| format!("UNWIND $l AS x WITH DISTINCT {e} AS r RETURN r UNION RETURN null AS r"))),
         ("CALL_DISTINCT", Box::new(|e| format!("UNWIND $l AS x CALL {{ WITH x RETURN DISTINCT {e} AS r }} RETURN r"))),
+        // the failing call hidden inside CASE / a comprehension of the sort key
+        ("ORDER_BY_CASE", Box::new(|e| format!("UNWIND $l AS x RETURN x AS r ORDER BY CASE WHEN true THEN {e} ELSE null END"))),
+        ("ORDER_BY_comprehension", Box::new(|e| format!("UNWIND $l AS x RETURN x AS r ORDER BY [z IN [1] | {e}][0]"))),
+        ("ORDER_BY_list", Box::new(|e| format!("UNWIND $l AS x RETURN x AS r ORDER BY [{e}, 1]"))),
+        // ORDER BY consumes every row even when LIMIT keeps only the first ones
+        ("ORDER_BY_LIMIT_1", Box::new(|e| format!("UNWIND $l AS x RETURN {e} AS r ORDER BY r LIMIT 1"))),
+        ("ORDER_BY_DESC_LIMIT_2", Box::new(|e| format!("UNWIND $l AS x RETURN {e} AS r ORDER BY r DESC LIMIT 2"))),
+        ("WITH_ORDER_BY_LIMIT_1", Box::new(|e| format!("UNWIND $l AS x WITH {e} AS r ORDER BY r LIMIT 1 RETURN r"))),
+        // several aggregates in one projection
+        ("count_star_then_collect", Box::new(|e| format!("UNWIND $l AS x RETURN count(*) AS n, collect({e}) AS r"))),
+        ("count_star_expr_then_count", Box::new(|e| format!("UNWIND $l AS x RETURN count(*) + 0 AS n, count({e}) AS r"))),
+        ("collect_then_count", Box::new(|e| format!("UNWIND $l AS x RETURN collect(x) AS a, count({e}) AS r"))),
+        ("grouped_count_star_then_collect", Box::new(|e| format!("UNWIND $l AS x RETURN 1 AS k, count(*) AS n, collect({e}) AS r"))),
+        ("min_max", Box::new(|e| format!("UNWIND $l AS x RETURN min({e}) AS a, max({e}) AS r"))),
     ];
     let _ = tier;
     let mut n = 0u64;
@@ -450,7 +464,7 @@ fn to_cv(v: &Value) -> CV {
 
 pub fn c21(tier: Tier) -> i32 {
     let rep = Report::new("C21", tier);
-    rep.rule("all lists up to the stated length over {1, -1, 2, i64::MAX, i64::MIN, 0.5, null} (sum / avg / min / max / count / collect, plain and DISTINCT) and over {1, 2, null, 'a', [1]} (count / collect / min / max within one type), each also with every grouping-key list of the same length over {1, 2, null}; oracle: count(*) = group size, count = non-null count, collect = the non-null values (as a multiset), min / max = fold with exact numeric comparison, sum = exact integer sum when every value is an integer and the sum fits (otherwise an error or a Float close to the exact value, never a wrapped Int), avg within 1e-12 relative, one row per distinct key; non-trivial = (list, grouping, aggregate) instances");
+    rep.rule("all lists up to the stated length over {1, -1, 2, i64::MAX, i64::MIN, 0.5, null} (sum / avg / min / max / count / collect, plain and DISTINCT) over {0.0, -0.0, 0, 1, 1.0, null} (numbers with several representations: 0.0 and -0.0 are one value for DISTINCT, any representation is a correct min / max; whether 1 and 1.0 are one value for DISTINCT is not judged) and over {1, 2, null, 'a', [1]} (count / collect / min / max within one type), each also with every grouping-key list of the same length over {1, 2, null}; oracle: count(*) = group size, count = non-null count, collect = the non-null values (as a multiset), min / max = fold with exact numeric comparison, sum = exact integer sum when every value is an integer and the sum fits (otherwise an error or a Float close to the exact value, never a wrapped Int), avg within 1e-12 relative, one row per distinct key; non-trivial = (list, grouping, aggregate) instances");
     let ev = Evaluator::new();
     let num_alpha: Vec<Value> = vec![vint(1), vint(-1), vint(2), vint(i64::MAX), vint(i64::MIN), Value::Float(0.5), Value::Null];
     let mixed_alpha: Vec<Value> = vec![vint(1), vint(2), Value::Null, Value::String("a".into()), Value::List(vec![vint(1)])];
@@ -547,10 +561,19 @@ pub fn c21(tier: Tier) -> i32 {
             }
             let want_mn = mn.map(|v| to_cv(v)).unwrap_or(CV::Null);
             let want_mx = mx.map(|v| to_cv(v)).unwrap_or(CV::Null);
-            if row[4] != want_mn {
+            // ties between different representations of one number (0.0 / -0.0 / 0, 1 / 1.0): any of them is a correct minimum
+            let same_number = |got: &CV, want: Option<&Value>| -> bool {
+                let g = match got {
+                    CV::Int(i) => Value::Int(*i),
+                    CV::Float(b) => Value::Float(f64::from_bits(*b)),
+                    _ => return false,
+                };
+                want.is_some_and(|w| num_cmp(&g, w) == Some(std::cmp::Ordering::Equal))
+            };
+            if row[4] != want_mn && !same_number(&row[4], mn) {
                 rep.violation(mk("min", format!("min = {} expected {} for {:?}", row[4].show(), want_mn.show(), members.iter().map(|v| to_cv(v).show()).collect::<Vec<_>>())));
             }
-            if row[5] != want_mx {
+            if row[5] != want_mx && !same_number(&row[5], mx) {
                 rep.violation(mk("max", format!("max = {} expected {} for {:?}", row[5].show(), want_mx.show(), members.iter().map(|v| to_cv(v).show()).collect::<Vec<_>>())));
             }
             // avg
@@ -581,7 +604,10 @@ pub fn c21(tier: Tier) -> i32 {
             // count(DISTINCT) by exact numeric equality classes
             let mut classes: Vec<&Value> = Vec::new();
             for v in &nonnull {
-                if !classes.iter().any(|c| num_cmp(c, v) == Some(std::cmp::Ordering::Equal)) {
+                // equal numbers of the SAME type are one value (0.0 and -0.0); whether 1 and 1.0 are one value for
+                // DISTINCT is not judged (the engine keeps them apart; openCypher's equivalence would merge them)
+                let same_type = |a: &Value, b: &Value| matches!((a, b), (Value::Int(_), Value::Int(_)) | (Value::Float(_), Value::Float(_)));
+                if !classes.iter().any(|c| same_type(c, v) && num_cmp(c, v) == Some(std::cmp::Ordering::Equal)) {
                     classes.push(v);
                 }
             }
@@ -596,6 +622,15 @@ pub fn c21(tier: Tier) -> i32 {
         }
         rep.outcome("checked");
     };
+    // numbers with several representations: 0.0 / -0.0 / 0 and 1 / 1.0 are ONE value for DISTINCT, min, max
+    let eq_alpha: Vec<Value> = vec![Value::Float(0.0), Value::Float(-0.0), vint(0), vint(1), Value::Float(1.0), Value::Null];
+    let eq_lists = all_lists(&eq_alpha, tier.pick(3usize, 4));
+    eq_lists.par_iter().for_each(|l| {
+        check_numeric(l, None);
+        if l.len() == 2 {
+            check_numeric(l, Some(&[vint(1), vint(1)]));
+        }
+    });
     lists.par_iter().for_each(|l| {
         check_numeric(l, None);
         if !l.is_empty() && l.len() <= tier.pick(2, 3) {
@@ -630,7 +665,7 @@ pub fn c21(tier: Tier) -> i32 {
         }
     });
     let total = n.load(std::sync::atomic::Ordering::Relaxed);
-    rep.add_states(lists.len() as u64 + mixed.len() as u64);
+    rep.add_states(lists.len() as u64 + eq_lists.len() as u64 + mixed.len() as u64);
     rep.add_transitions(total);
     rep.add_traces(total);
     rep.add_evals(total);
@@ -674,7 +709,7 @@ fn ref_order(a: &Value, b: &Value) -> Option<std::cmp::Ordering> {
 
 pub fn c20(tier: Tier) -> i32 {
     let rep = Report::new("C20", tier);
-    rep.rule("all lists up to the stated length over a 30-value alphabet (large integers next to floats, signed zeros, infinities, NaN, null, booleans, plain and date-like strings, lists, maps) through `UNWIND $l AS x RETURN x ORDER BY x [DESC] [SKIP s] [LIMIT l]` for every s, l <= len+1; oracle O1: the output is a permutation of the input; O2: no adjacent pair is out of order according to a reference comparator that is only consulted where Cypher's order is uncontroversial (exact numeric comparison, byte-wise strings, false < true, null last); O3: the output sequence is the same for every permutation of the same multiset; O4: SKIP s LIMIT l equals positions s..s+l-1 of the unsliced output; a panic of the sort is a violation; plus two-key ORDER BY over pairs; non-trivial = lists with at least two distinct values");
+    rep.rule("all lists up to the stated length over a 30-value alphabet (large integers next to floats, signed zeros, infinities, NaN, null, booleans, plain and date-like strings, lists, maps) through `UNWIND $l AS x RETURN x ORDER BY x [DESC] [SKIP s] [LIMIT l]` for every s, l <= len+1; oracle O1: the output is a permutation of the input; O2: no adjacent pair is out of order according to a reference comparator that is only consulted where Cypher's order is uncontroversial (exact numeric comparison, byte-wise strings, false < true, null last); O3: the output sequence is the same for every permutation of the same multiset; O4: SKIP s LIMIT l equals positions s..s+l-1 of the unsliced output; O5: the same for RETURN DISTINCT x ORDER BY x (DISTINCT is applied before the slice); a panic of the sort is a violation; plus two-key ORDER BY over pairs; non-trivial = lists with at least two distinct values");
     let ev = Evaluator::new();
     let vals = alphabet_v();
     let alpha: Vec<Value> = vals.iter().map(|v| v.1.clone()).collect();
@@ -789,6 +824,35 @@ pub fn c20(tier: Tier) -> i32 {
                             }
                         }
                     }
+                    // O5 DISTINCT is applied before ORDER BY / SKIP / LIMIT: slices of the distinct output
+                    let qd = format!("UNWIND $l AS x RETURN DISTINCT x ORDER BY x{}", if desc { " DESC" } else { "" });
+                    n.fetch_add(1, std::sync::atomic::Ordering::Relaxed);
+                    if let Ok(dr) = ev.rows(&qd, &[("l", Value::List(l.clone()))]) {
+                        let dgot: Vec<CV> = dr.iter().map(|x| x[0].clone()).collect();
+                        // every input value is represented, nothing is invented
+                        let mut dset = dgot.clone();
+                        dset.sort();
+                        dset.dedup();
+                        if dset.len() != dgot.len() || dgot.iter().any(|c| !b.contains(c)) || dgot.is_empty() != l.is_empty() {
+                            rep.violation(Violation { class: "distinct_output_wrong".into(), kinds: kinds_v.clone(), replay: json!({"engine":"expr","query": qd, "list": names}), detail: format!("{:?}", dgot.iter().map(|v| v.show()).collect::<Vec<_>>()) });
+                        }
+                        for s in 0..=dgot.len() {
+                            for lim in 0..=dgot.len() + 1 {
+                                n.fetch_add(1, std::sync::atomic::Ordering::Relaxed);
+                                let qs = format!("{qd} SKIP {s} LIMIT {lim}");
+                                match ev.rows(&qs, &[("l", Value::List(l.clone()))]) {
+                                    Ok(r) => {
+                                        let g: Vec<CV> = r.iter().map(|x| x[0].clone()).collect();
+                                        let want: Vec<CV> = dgot.iter().skip(s).take(lim).cloned().collect();
+                                        if g != want {
+                                            rep.violation(Violation { class: "distinct_slice_mismatch".into(), kinds: kinds_v.clone(), replay: json!({"engine":"expr","query": qs, "list": names}), detail: format!("got {:?} want {:?} (positions {s}..{} of the unsliced DISTINCT output)", g.iter().map(|v| v.show()).collect::<Vec<_>>(), want.iter().map(|v| v.show()).collect::<Vec<_>>(), s + lim) });
+                                        }
+                                    }
+                                    Err(e) => rep.violation(Violation { class: format!("distinct_slice_{}", e.class()), kinds: kinds_v.clone(), replay: json!({"engine":"expr","query": qs, "list": names}), detail: e.msg().to_string() }),
+                                }
+                            }
+                        }
+                    }
                 }
             }
         }
@@ -804,9 +868,12 @@ pub fn c20(tier: Tier) -> i32 {
         rep.add_states(1);
     });
     // two keys: pairs [a,b], ORDER BY a ASC, b DESC over the numeric / string sub-alphabet
-    let sub: Vec<Value> = vec![vint(1), vint(2), Value::Float(1.5), Value::Null, Value::String("a".into()), Value::String("b".into())];
-    let pairs: Vec<Value> = sub.iter().flat_map(|a| sub.iter().map(move |b| Value::List(vec![a.clone(), b.clone()]))).collect();
-    {
+    // (1 and 1.0, 0.0 and -0.0 tie on the first key although they are represented differently: the second key must still decide)
+    let sub: Vec<Value> = vec![vint(1), Value::Float(1.0), vint(2), Value::Float(1.5), Value::Float(0.0), Value::Float(-0.0), Value::Null, Value::String("a".into()), Value::String("b".into())];
+    let pairs_fwd: Vec<Value> = sub.iter().flat_map(|a| sub.iter().map(move |b| Value::List(vec![a.clone(), b.clone()]))).collect();
+    let mut pairs_rev = pairs_fwd.clone();
+    pairs_rev.reverse();
+    for pairs in [pairs_fwd, pairs_rev] {
         let q = "UNWIND $l AS p RETURN p[0] AS a, p[1] AS b ORDER BY a, b DESC";
         n.fetch_add(1, std::sync::atomic::Ordering::Relaxed);
         match ev.rows(q, &[("l", Value::List(pairs.clone()))]) {
